@@ -266,6 +266,12 @@ def main(ctx):
         'loop x parameter) plus fixed raw byte streams and seeded byte '
         'mutations; each distinct case is non-trivial (it is malformed or '
         'extreme by construction)')
+    # ---- the server-side line editor: keys are hostile input too; no key
+    # sequence makes the line outgrow max_line_length or costs more output
+    # than a + b * (line length + width) per key (Editor.tla LineBounded /
+    # WorkBounded; part of builder-editor, shared with the extra module X06) ----
+    from checks import x06
+    x06.editor_work_cases(ctx, quick)
     ctx.assumptions += [
         'work bounds: 3 s watchdog per input, <= 2000 loop iterations and '
         '<= 4096 + 64*len(input) output bytes per packet (generous: only '
